@@ -433,9 +433,13 @@ def kernel_env(eng):
     loads = lambda it_, txt: {"__decoded__": txt[1]} if isinstance(txt, tuple) else (_ for _ in ()).throw(AssertionError("json.loads of a non-frame"))
     dumped = {}
 
-    def dumps(it_, obj):
+    def dumps(it_, obj, **options):
         tok = ("json-of", id(obj) if not isinstance(obj, dict) or obj else "empty-dict")
         dumped[tok] = obj
+        # the assumed contract (json.dumps total on the message dictionaries, its text always encodable, inverse of loads) is
+        # that of the DEFAULT encoder; layout options keep it, anything else (ensure_ascii=False lets lone surrogates through
+        # to .encode(), allow_nan=False / default= / cls= / skipkeys= change totality or the value) leaves it
+        dumped.setdefault("options-outside-the-assumed-contract", []).extend(sorted(k for k in options if k not in ("separators", "indent", "sort_keys")))
         return tok
     mod = load_kernel_module(it, {"json": PyModule("json", {"loads": loads, "dumps": dumps}), "unpack": None, "pack": None,
                                   "str_to_bytes": lambda it_, s_: ("bytes-of", s_),
@@ -506,6 +510,9 @@ def h_kernel_send(eng):
     want_n = {"none": 0, "one": 1, "set-of-two": 2, "empty-set": 0}[shape]
     eng.oblige(f"{U}/post.each-stream-gets-exactly-one-message", len(sent) == want_n and len({id(x[0]) for x in sent}) == want_n)
     eng.oblige(f"{U}/post.signature-over-the-four-frames", len(signed) == 1 and len(signed[0]) == 4)
+    ob = eng.oblige(f"{U}/post.serialised-within-the-assumed-json-contract", not dumped.get("options-outside-the-assumed-contract"))
+    if ob.status == "refuted":
+        ob.witness = {"signature": "send-json-options", "what": "send-text", "options": dumped.get("options-outside-the-assumed-contract")}
     if len(signed) != 1:
         return
     f = signed[0]
@@ -652,6 +659,8 @@ def replay_framing(wj):
         return run_native("c19_two_senders", wj, timeout=120)
     if wj.get("what") == "parent":
         return run_native("c19_interleaved_parent", wj, timeout=120)
+    if wj.get("what") == "send-text":
+        return run_native("c19_send_text", wj, timeout=120)
     return run_native("c19_framing_bounded", {"quick": True}, timeout=600)
 
 
